@@ -100,9 +100,10 @@ def finish(prop: str, tier: str, results: list[RuleResult], t0: float, extra: di
             print(f"    note: {n}")
     for f, text in known:
         print(f"KNOWN-FINDING: property={prop} rule={f.rule} key={f.key} {text}")
-    replay_dir = VERIF / "replay"
+    outroot = Path(os.environ["VERIF_OUT"]) if os.environ.get("VERIF_OUT") else VERIF  # scratch runs (mutant / refactoring regressions) write elsewhere
+    replay_dir = outroot / "replay"
     for f in violations:
-        replay_dir.mkdir(exist_ok=True)
+        replay_dir.mkdir(parents=True, exist_ok=True)
         name = re.sub(r"[^A-Za-z0-9_.-]+", "_", f"{prop}-{f.rule}-{f.key}")[:150] + ".json"
         rp = replay_dir / name
         rp.write_text(
@@ -171,8 +172,8 @@ def finish(prop: str, tier: str, results: list[RuleResult], t0: float, extra: di
         for k, v in extra.items():
             if k not in ("assumptions", "exhaustive"):
                 ev["coverage"][k] = v
-    evdir = VERIF / "evidence"
-    evdir.mkdir(exist_ok=True)
+    evdir = outroot / "evidence"
+    evdir.mkdir(parents=True, exist_ok=True)
     (evdir / f"{prop}.json").write_text(json.dumps(ev, indent=1, default=str))
     print(
         f"[{prop}] {obligations} obligations, {discharged} discharged, "
